@@ -164,3 +164,6 @@ def check(facts, rep, tier, cfg):
                                 "later request that reuses the id (exactly-once / independence of answers)")
     if not drops:
         rep.ok("C15.R3", "no-drop-reply", "", "BindRequest has no Drop reply")
+
+    rep.rule("C15.R4", "the bind-request queue is a bounded queue whose capacity is the configured bind_buffer_size")
+    check_capacity_role(facts, rep, crate, "C15.R4", "BindRequest", "Options.bind_buffer_size", "bind-request queue")
